@@ -1404,7 +1404,24 @@ func (z *Decimal) Sub(x, y *Decimal) *Decimal {
 
 	// ±0 - y
 	// x - ±Inf
-	return z.Neg(y)
+	// The sign must be flipped before rounding: Neg(y) would round y first,
+	// which is the wrong direction for ToNegativeInf and ToPositiveInf.
+	if z == y {
+		z.acc = Exact
+		z.neg = !z.neg
+		return z
+	}
+	z.acc = Exact
+	z.form = y.form
+	z.neg = !y.neg
+	if y.form == finite {
+		z.exp = y.exp
+		z.mant = z.mant.set(y.mant)
+		if z.prec < y.prec {
+			z.round(0)
+		}
+	}
+	return z
 }
 
 // Uint64 returns the unsigned integer resulting from truncating x
